@@ -75,8 +75,8 @@ class C07(Prop):
           "subscription kinds. Non-trivial: the script contains an undecorated object that "
           "subscribes or publishes, or a run-time subscribe to a signal another object already "
           "holds; distinct = distinct case digests.")
-  assumptions = ["every object is given a name (an undecorated start state cannot answer the reflection "
-                 "signal ActiveObject.start_at uses to invent one)",
+  assumptions = ["every object is given a name (the harness tells the objects apart by it; anonymous "
+                 "objects are exercised by C18 and C23)",
                  "a publish made before its object is started is required to reach the subscriptions "
                  "that were already in effect at the publish call"]
 
